@@ -2,6 +2,7 @@ package checks
 
 import (
 	"fmt"
+	"fortio.org/log"
 	"strings"
 	"time"
 
@@ -163,6 +164,19 @@ func c04Diff(hist []string) *core.Viol {
 			}
 		}
 	}
+	if len(hist) <= 2 {
+		// the log level is configuration: the shorter histories once more with the cache on at debug log level
+		prev := log.GetLogLevel()
+		log.SetLogLevelQuiet(log.Debug)
+		d := c04Run(hist, false, false)
+		log.SetLogLevelQuiet(prev)
+		b := c04Run(hist, true, false)
+		for i := range d {
+			if !sameRec(d[i], b[i]) {
+				return &core.Viol{Class: "output-differs @ " + trunc(hist[i], 60), Detail: fmt.Sprintf("input %d (%q) at debug log level with the cache on: %s ; cache off: %s", i, hist[i], d[i], b[i]), Case: core.Case{Kind: "hist", Data: text}}
+			}
+		}
+	}
 	return nil
 }
 
@@ -201,15 +215,15 @@ func runC04(c *core.Ctx) {
 	})
 	c.P.States = c.P.Traces
 	if ok {
-		c.P.Bound = fmt.Sprintf("every history of <=%d inputs over a %d-input alphabet on one persistent state; cache on vs off, each with registers on and off", depth, n)
+		c.P.Bound = fmt.Sprintf("every history of <=%d inputs over a %d-input alphabet on one persistent state; cache on vs off, each with registers on and off; histories of <=2 inputs also at debug log level", depth, n)
 	}
 }
 
 func init() {
 	core.Register(&core.Check{
-		ID:    "C04",
-		Level: "model_checking",
-		Rule: "depth-bounded complete exploration of REPL histories: every sequence of <=3 (thorough 4) inputs over an alphabet of ~40 inputs (define/redefine a callee, closures with identical inner text capturing lower-case / upper-case / function-valued variables, functions that print, fail, read and write globals, wrap a non-deterministic extension, take hashable and unhashable arguments, 5 arguments, -0.0/0.0, 1/1.0/\"1\"/true, recursion, functions whose printed text coincides) run on one persistent state with the function cache on and off (build-tag hook), each with registers on and off. Oracle: identical output (order and multiplicity), shown results and error texts for every input. Non-trivial = every history (each replays real calls); distinct by the input sequence. The alphabet includes names bound nowhere when first read (error caught), constants rebound to equal-but-different values (-0.0 for 0.0, [1.0] for [1]) and same-text functions made by two unjson states.",
+		ID:          "C04",
+		Level:       "model_checking",
+		Rule:        "depth-bounded complete exploration of REPL histories: every sequence of <=3 (thorough 4) inputs over an alphabet of ~40 inputs (define/redefine a callee, closures with identical inner text capturing lower-case / upper-case / function-valued variables, functions that print, fail, read and write globals, wrap a non-deterministic extension, take hashable and unhashable arguments, 5 arguments, -0.0/0.0, 1/1.0/\"1\"/true, recursion, functions whose printed text coincides) run on one persistent state with the function cache on and off (build-tag hook), each with registers on and off. Oracle: identical output (order and multiplicity), shown results and error texts for every input. Non-trivial = every history (each replays real calls); distinct by the input sequence. The alphabet includes names bound nowhere when first read (error caught), constants rebound to equal-but-different values (-0.0 for 0.0, [1.0] for [1]) and same-text functions made by two unjson states.",
 		Assume:      []string{"cache disabled through the verif build-tag hook eval.VerifCacheOff (lookups miss, stores are no-ops)", "non-deterministic extensions modelled by verif_counter() (DontCache)"},
 		QuickCap:    300 * time.Second,
 		ThoroughCap: 20 * time.Minute,
